@@ -6,7 +6,7 @@
         260 < t <= 285 degC:   psat(t) <= p <= 100 MPa      (all of region 1 at these temperatures)
         285 < t <= 300 degC:   12.5 MPa <= p;   300 < t <= 312: 17.5 MPa <= p;   312 < t <= 326: 25 MPa <= p;
         326 < t <= 338 degC:   30 MPa <= p;     338 < t <= 350: 40 MPa <= p
-    (38 rectangles; the lower pressure limits follow the line where the 34-term sum cancels to about
+    (39 rectangles; the lower pressure limits follow the line where the 34-term sum cancels to about
     1/200 of its largest term).  In the remaining strip between the saturation curve and those limits
     the cancellation reaches 1/9000; bisection in two variables does not close there (measured, see
     reports/C14.md); that part stays with the sampled oracle. *)
@@ -16,7 +16,7 @@ From Interval Require Import Tactic.
 From Gen Require Import GenIAPWS GenTraced.
 From P Require Import Expr RunR Deriv Potential Mono1
   Mono1TilesA Mono1TilesB Mono1TilesC Mono1TilesD Mono1TilesE Mono1TilesF Mono1TilesG Mono1TilesH
-  Mono1TilesI Mono1TilesJ Mono1TilesK Mono1TilesL Formulas SatInv SatRange.
+  Mono1TilesI Mono1TilesJ Mono1TilesK Mono1TilesL Mono1TilesM Mono1TilesN Formulas SatInv SatRange.
 Import ListNotations.
 Close Scope Q_scope.
 Open Scope R_scope.
@@ -104,7 +104,8 @@ Proof.
   }
   destruct (Rle_dec tk 586).
   { intros Hp.
-    destruct (Rle_dec p 50000000); [pose proof (tile_574_586_175_500 tk p ltac:(lra) ltac:(lra)); lra|].
+    destruct (Rle_dec p 27500000); [pose proof (tile_574_586_175_275 tk p ltac:(lra) ltac:(lra)); lra|].
+    destruct (Rle_dec p 50000000); [pose proof (tile_574_586_275_500 tk p ltac:(lra) ltac:(lra)); lra|].
     pose proof (tile_574_600_500_1000 tk p ltac:(lra) ltac:(lra)); lra.
   }
   destruct (Rle_dec tk 600).
@@ -137,11 +138,10 @@ Proof. unfold Q2R, pstar1_Q; cbn [Qnum Qden]. lra. Qed.
 Lemma g1_decreasing tk p1 p2 : in_dom1 tk p1 -> p1 < p2 <= 100000000 -> g1 tk p2 < g1 tk p1.
 Proof.
   intros D1 Hp. pose proof pstar1_pos as Hs.
-  destruct D1 as (Ht & Hp1 & H25 & H50).
+  destruct D1 as (Ht & Hp0 & Hp1).
   destruct (g_mvt n1 (Q2R c7_1) (Q2R pstar1_Q) (Y1 tk) p1 p2 R1.terms ltac:(lra) ltac:(lra)) as (q & Hq & E).
   { intros p Hpp. pose proof (X1_pos p ltac:(lra)) as Q. unfold X1 in Q. lra. }
-  assert (Dq : in_dom1 tk q).
-  { split; [lra|]. split; [lra|]. split; intros Hh; [pose proof (H25 Hh)|pose proof (H50 Hh)]; lra. }
+  assert (Dq : in_dom1 tk q) by (split; [lra|split; lra]).
   pose proof (gpp_neg tk q Dq) as N. unfold gpp, X1 in N. unfold g1, X1.
   set (d := msum_dxx n1 (Q2R c7_1 - q / Q2R pstar1_Q) (Y1 tk) R1.terms) in *.
   assert (K : 0 < (- d) * / Q2R pstar1_Q * (p2 - p1)).
@@ -155,15 +155,15 @@ Proof.
   intros D1. pose proof (g1_pos_at_100MPa tk ltac:(destruct D1; lra)) as G.
   destruct (Rlt_dec p 100000000) as [L|L].
   - pose proof (g1_decreasing tk p 100000000 D1 ltac:(lra)). lra.
-  - assert (p = 100000000) by (destruct D1 as (_ & ? & _); lra). subst p. exact G.
+  - assert (p = 100000000) by (destruct D1 as (_ & _ & ?); lra). subst p. exact G.
 Qed.
 
 (** what the traced cowat returns as density, on the domain *)
 Lemma cowat_density t p : in_dom1 (t + Q2R tc_k_Q) p ->
   nth 0 (outsR cowat_traced [t; p] n1) 0 = Q2R pstar1_Q / (Q2R rconst_Q * (t + Q2R tc_k_Q) * g1 (t + Q2R tc_k_Q) p).
 Proof.
-  intros D1. pose proof (g1_pos _ _ D1) as G. destruct D1 as (Ht & Hp & _).
-  pose proof (X1_pos p Hp) as HX. pose proof (Y1_pos _ Ht) as HY.
+  intros D1. pose proof (g1_pos _ _ D1) as G. destruct D1 as (Ht & Hp0 & Hp).
+  pose proof (X1_pos p ltac:(lra)) as HX. pose proof (Y1_pos _ Ht) as HY.
   assert (HR : 0 < Q2R rconst_Q) by (unfold Q2R, rconst_Q; cbn [Qnum Qden]; lra).
   rewrite (R1.outputs t p n1).
   - reflexivity.
@@ -173,23 +173,55 @@ Proof.
   - unfold g1, X1, Y1 in G. apply Rgt_not_eq. apply Rmult_lt_0_compat; [apply Rmult_lt_0_compat; lra|lra].
 Qed.
 
+(** the saturation pressure on the two columns where the domain reaches down to it *)
+Lemma sat_floor_a tk : 534 <= tk <= 545 -> 4700000 <= sat_val n4 tk.
+Proof. intros H. expose. interval with (i_bisect tk, i_depth 14). Qed.
+Lemma sat_floor_b tk : 545 <= tk <= 560 -> 5600000 <= sat_val n4 tk.
+Proof. intros H. expose. interval with (i_bisect tk, i_depth 14). Qed.
+
+(** the stated conditions on (t, p) put (tk, p) in the tiled domain *)
+Lemma in_dom1_of_conditions t p :
+  0 <= t <= 350 -> 0 <= p <= 100000000 ->
+  (260 < t <= 285 -> sat_val n4 (t + Q2R tc_k_Q) <= p) ->
+  (285 < t -> 12500000 <= p) -> (300 < t -> 17500000 <= p) -> (312 < t -> 25000000 <= p) ->
+  (326 < t -> 30000000 <= p) -> (338 < t -> 40000000 <= p) ->
+  in_dom1 (t + Q2R tc_k_Q) p.
+Proof.
+  intros Ht Hp Hs H1 H2 H3 H4 H5.
+  assert (Hk : t + 27314/100 <= t + Q2R tc_k_Q <= t + 27315/100) by (unfold Q2R, tc_k_Q; cbn [Qnum Qden]; lra).
+  set (tk := t + Q2R tc_k_Q) in *.
+  split; [lra|]. split; [lra|]. split; [|lra]. unfold plow1.
+  repeat (destruct (Rle_dec tk _) as [?|?]; [lra|]).
+  destruct (Rle_dec tk 545).
+  { pose proof (Hs ltac:(lra)). pose proof (sat_floor_a tk ltac:(lra)). lra. }
+  destruct (Rle_dec tk 560).
+  { destruct (Rle_dec t 285); [pose proof (Hs ltac:(lra)); pose proof (sat_floor_b tk ltac:(lra)); lra|pose proof (H1 ltac:(lra)); lra]. }
+  destruct (Rle_dec tk 574); [pose proof (H1 ltac:(lra)); lra|].
+  destruct (Rle_dec tk 586); [pose proof (H2 ltac:(lra)); lra|].
+  destruct (Rle_dec tk 600); [pose proof (H3 ltac:(lra)); lra|].
+  destruct (Rle_dec tk 612); [pose proof (H4 ltac:(lra)); lra|].
+  pose proof (H5 ltac:(lra)); lra.
+Qed.
+
 Theorem density_increases_region1_partial_proof (t p1 p2 : R) :
   0 <= t <= 350 -> 0 <= p1 -> p1 < p2 <= 100000000 ->
-  (260 < t -> 25000000 <= p1) -> (300 < t -> 50000000 <= p1) ->
+  (260 < t <= 285 -> sat_val n4 (t + Q2R tc_k_Q) <= p1) ->
+  (285 < t -> 12500000 <= p1) -> (300 < t -> 17500000 <= p1) -> (312 < t -> 25000000 <= p1) ->
+  (326 < t -> 30000000 <= p1) -> (338 < t -> 40000000 <= p1) ->
   let rho p := nth 0 (outsR cowat_traced [t; p] n1) 0 in
   0 < rho p1 < rho p2.
 Proof.
-  intros Ht Hp1 Hp2 H25 H50 rho.
-  assert (Hk : 27314/100 <= t + Q2R tc_k_Q <= 62316/100 /\ t + Q2R tc_k_Q <= t + 27315/100).
-  { unfold Q2R, tc_k_Q; cbn [Qnum Qden]. lra. }
+  intros Ht Hp1 Hp2 Hs H1 H2 H3 H4 H5 rho.
+  assert (D1 : in_dom1 (t + Q2R tc_k_Q) p1) by (apply in_dom1_of_conditions; try assumption; lra).
+  assert (D2 : in_dom1 (t + Q2R tc_k_Q) p2).
+  { apply in_dom1_of_conditions; try lra; intros Hh;
+      first [pose proof (Hs Hh); lra|pose proof (H1 Hh); lra|pose proof (H2 Hh); lra|pose proof (H3 Hh); lra
+            |pose proof (H4 Hh); lra|pose proof (H5 Hh); lra]. }
+  assert (Hk : 27314/100 <= t + Q2R tc_k_Q <= 62316/100) by (unfold Q2R, tc_k_Q; cbn [Qnum Qden]; lra).
   set (tk := t + Q2R tc_k_Q) in *.
-  assert (D1 : in_dom1 tk p1).
-  { split; [lra|]. split; [lra|]. split; intros Hh; [apply H25|apply H50]; lra. }
-  assert (D2 : in_dom1 tk p2).
-  { split; [lra|]. split; [lra|]. split; intros Hh; [assert (25000000 <= p1) by (apply H25; lra)|assert (50000000 <= p1) by (apply H50; lra)]; lra. }
   unfold rho. rewrite (cowat_density t p1 D1), (cowat_density t p2 D2). fold tk.
   pose proof (g1_pos tk p2 D2) as G2. pose proof (g1_decreasing tk p1 p2 D1 Hp2) as Gd.
-  pose proof pstar1_pos as Hs.
+  pose proof pstar1_pos as Hps.
   assert (HR : 0 < Q2R rconst_Q) by (unfold Q2R, rconst_Q; cbn [Qnum Qden]; lra).
   assert (B : 0 < Q2R rconst_Q * tk) by (apply Rmult_lt_0_compat; lra).
   set (b := Q2R rconst_Q * tk) in *. set (a := Q2R pstar1_Q) in *.
@@ -198,12 +230,15 @@ Proof.
   assert (P2 : 0 < b * x2) by (apply Rmult_lt_0_compat; lra).
   split.
   - apply Rdiv_lt_0_compat; assumption.
-  - unfold Rdiv. apply Rmult_lt_compat_l; [exact Hs|].
+  - unfold Rdiv. apply Rmult_lt_compat_l; [exact Hps|].
     apply Rinv_lt_contravar; [apply Rmult_lt_0_compat; assumption|].
     apply Rmult_lt_compat_l; assumption.
 Qed.
 
-(** non-vacuity: a liquid state at 200 degC *)
+(** non-vacuity: a liquid state at 200 degC, and one at 330 degC *)
 Example density_increases_instance :
   let rho p := nth 0 (outsR cowat_traced [200; p] n1) 0 in 0 < rho 5000000 < rho 6000000.
+Proof. apply density_increases_region1_partial_proof; lra. Qed.
+Example density_increases_instance_hot :
+  let rho p := nth 0 (outsR cowat_traced [330; p] n1) 0 in 0 < rho 30000000 < rho 31000000.
 Proof. apply density_increases_region1_partial_proof; lra. Qed.
